@@ -24,14 +24,17 @@ def scripts(t):
             s = ','.join(tup)
             if s not in out and ('1' in tup or '4' in tup):
                 out.append(s)
-    return out[:400]
+    # budget: one script x configuration costs 2-5 min of CBMC; the thorough tier takes every 6th of the enumerated scripts
+    # (rotating with the seed) on top of the quick ones
+    extra = out[len(quick):]
+    return quick + extra[seed() % 6::6][:60]
 
 
 def main():
     rep = Report('C16', 'model_checking')
     t = tier()
     only = os.environ.get('C16_ONLY')
-    rep.bounds = dict(scripts='operation sequences over {compile, take_code, reset, recompile, run (program), run (code-only), emulate, free code, enter parse-error state}: quick 18 scripts x configurations, thorough all sequences of length <= 3 containing a compile',
+    rep.bounds = dict(scripts='operation sequences over {compile, take_code, reset, recompile, run (program), run (code-only), emulate, free code, enter parse-error state}: quick 18 scripts x configurations, thorough: the quick scripts plus a seed-rotated sixth (<= 60) of all sequences of length <= 3 containing a compile, two configurations each',
                       configurations='back end succeeds / fails while emitting / signals register overflow / refuses (no rule) / executable memory unavailable / ORC_CODE=emulate / backup function', data='emitted size and bytes symbolic')
     rep.assume('code memory is a ghost allocator that frees its chunk objects (a second free is a pointer-check failure); the real allocator is C09',
                'registry objects (opcode sets, rule arrays) are torn down by the harness before the leak check', 'malloc never fails', 'leaks inside the real x86 back ends are outside (stub back end)')
@@ -44,7 +47,7 @@ def main():
         js.append(cbmc.Job('c16.ops%s.%s' % (s.replace(',', ''), '_'.join(x.replace('CFG_', '').replace('=', '') for x in c)), [HC] + TUS, 'h_lifecycle',
                            defs=['INCLUDE_OPCODE_C', 'OPS=' + s] + c, unwind=130, timeout=1500 if t == 'quick' else 3000, mem_gb=12, flags=['--memory-leak-check'], funcs=FUNCS))
     for i, s in enumerate(scripts(t)):
-        cs = confs if t != 'quick' else ([confs[0]] + ([confs[1 + (i + seed()) % 4]] if i % 2 == 0 else []))
+        cs = ([confs[0]] + ([confs[1 + (i + seed()) % 4]] if i % 2 == 0 else [])) if t == 'quick' else [confs[0], confs[1 + (i + seed()) % 4]]
         for c in cs:
             js.append(cbmc.Job('c16.ops%s.%s' % (s.replace(',', ''), '_'.join(x.replace('CFG_', '').replace('=', '') for x in c) or 'default'), [HC] + TUS, 'h_lifecycle',
                                defs=['INCLUDE_OPCODE_C', 'OPS=' + s] + c, unwind=130, timeout=1500 if t == 'quick' else 3000, mem_gb=12, flags=['--memory-leak-check'], funcs=FUNCS))
